@@ -25,6 +25,7 @@ import XMT.RouteLemmas
 import XMT.RouteOutbound
 import XMT.RouteProxyLemmas
 import XMT.RouteWitness
+import XMT.RouteChan
 namespace XMT.Props.C15
 open XMT XMT.Route
 
@@ -215,6 +216,39 @@ theorem proxy_unknown_gets_register (hash : ID → Nat) (t : Proxy.PTbl) (n : Pk
                     next := [registerReply { n.hd with flags := n.hd.flags ||| flagProxy }], subs := [] }) :=
   Proxy.talk_unknown hash t n hun he hh htags hmd
 
+/-! ### channel mode: the outbound queue of a Session follows the CURRENT tag list of a connection -/
+
+/-- Whatever packets were read from a channel connection before: after the connection handled a
+packet with tag list `tags`, a Session whose queue is redirected to this connection is named by
+`tags`, is stored in the table under that tag and is not the connection's own host. (`Tracked` is the
+book-keeping invariant "redirected to c ⇒ recorded in c.subs"; it holds for a fresh connection and is
+kept by every packet, `chan_history_tracked`.) -/
+theorem chan_redirects_only_current_tags (c : RouteChan.Conn) (tags : List Nat) (t t' : RouteChan.CTbl)
+    (c' : RouteChan.Conn) (htr : RouteChan.Tracked c t) (h : RouteChan.resolve c tags t = some (t', c'))
+    (k : Nat) (hk : RouteChan.chnOf t' k = some c.cid) :
+    k ∈ tags ∧ ∃ v, t.get k = some v ∧ (v.id == c.host) = false :=
+  (RouteChan.resolve_redirects_only_tagged c tags t t' c' htr h k hk).2
+
+/-- A Session recorded by an earlier packet of the connection and not named by the current one is
+released (its queue is its own again): no stale redirect survives a packet. -/
+theorem chan_releases_stale (c : RouteChan.Conn) (tags : List Nat) (t t' : RouteChan.CTbl) (c' : RouteChan.Conn)
+    (h : RouteChan.resolve c tags t = some (t', c')) (k : Nat)
+    (hk : k ∈ RouteChan.keys c.subs) (hn : k ∉ RouteChan.keys c'.subs) : RouteChan.chnOf t' k = none :=
+  RouteChan.resolve_releases_stale c tags t t' c' h k hk hn
+
+/-- the invariant over a whole channel (any number of packets, any tag lists) -/
+theorem chan_history_tracked (ps : List (List Nat)) (c : RouteChan.Conn) (t t' : RouteChan.CTbl) (c' : RouteChan.Conn)
+    (htr : RouteChan.Tracked c t) (h : RouteChan.runConn c t ps = some (t', c')) : RouteChan.Tracked c' t' :=
+  (RouteChan.runConn_tracked ps c t t' c' htr h).1
+
+/-- in particular a packet WITHOUT tags leaves nothing redirected to the connection -/
+theorem chan_empty_tags_release_all (c : RouteChan.Conn) (t t' : RouteChan.CTbl) (c' : RouteChan.Conn)
+    (htr : RouteChan.Tracked c t) (h : RouteChan.resolve c [] t = some (t', c')) (k : Nat) :
+    RouteChan.chnOf t' k ≠ some c.cid := by
+  intro hk
+  have := (chan_redirects_only_current_tags c [] t t' c' htr h k hk).1
+  cases this
+
 /-! ### non-vacuity: the hypotheses are met by non-trivial instances, the model really computes -/
 
 -- a table with a registered device and a colliding unregistered one satisfies `unknown_gets_register`
@@ -253,5 +287,11 @@ example : (talk idHash false Witness.tblA
     ([.touch Witness.idA Witness.idA, .recv Witness.idA Witness.idA 20 5],
      .ok { ok := true, host := some Witness.idA, next := [{ dev := Witness.idA, pid := 200, job := 70 }], subs := [] }) := by
   rfl
+
+-- channel mode, concrete: host 9, Sessions under keys 5 and 6; tags [5] then []
+example : (RouteChan.runConn { cid := 1, host := [9], subs := [] }
+    [(5, { id := [5], chn := none }), (6, { id := [6], chn := none })] [[5]]).map (fun r => RouteChan.chnOf r.1 5) = some (some 1) := by decide
+example : (RouteChan.runConn { cid := 1, host := [9], subs := [] }
+    [(5, { id := [5], chn := none }), (6, { id := [6], chn := none })] [[5], []]).map (fun r => RouteChan.chnOf r.1 5) = some none := by decide
 
 end XMT.Props.C15
